@@ -276,7 +276,9 @@ class C01(Prop):
         reps = 2 if tier == "quick" else 4
         for n, ln in enumerate(lines):
             for r in range(reps):
+                # (thorough tier: one of the four repetitions of a shape also goes through a second-use variant)
                 gens.append({"kind": "tree", "tree": ln["tree"], "seed": rnd.getrandbits(30), "salt": n * reps + r,
+                             "variants": tier == "quick" or r == 0,
                              "indent": rnd.choice([0, 0, 1, 3]), "eol": rnd.choice(["\n", "\n", "", "\r\n", " ", "\t"])})
         return gens
 
@@ -303,6 +305,8 @@ class C01(Prop):
             obj, described = self.concretise(g["tree"], H, rnd, g["salt"])
             out = obj.get_html_string(g["indent"], g["eol"])
             recs = [{"tree": described, "events": tokenize(out), "gen": g}]
+            if not g.get("variants", True):
+                return recs
             if g["salt"] % 4 == 0 and isinstance(obj, H.Tag) and described["attrs"]:
                 # the SAME object rendered again after one of its attributes went away (item deletion / pop / the
                 # class helper): the markup follows the tree as it is now
